@@ -379,8 +379,8 @@ func checkC05(ctx *core.Ctx, rep *core.Report) {
 		report(st, c05NowAccounting(st.Obj, rep))
 		seam.SetNow(0)
 	})
-	sel := pickSeeds(all, argInt(ctx, "nth", nth))
-	xstate.Explore(ctx, rep, xstate.Options{Seeds: sel, Depth: 1}, func(st *xstate.State) {
+	sel := pickSeedsPlain(all, argInt(ctx, "nth", nth))
+	xstate.Explore(ctx, rep, xstate.Options{Seeds: sel, Depth: 1, NoCompound: ctx.Quick()}, func(st *xstate.State) {
 		if len(st.Path) == 0 {
 			return
 		}
